@@ -73,6 +73,7 @@ def run(ctx):
             model = ctx.run_model("tv_c17", os.path.join(ctx.work, "ops.txt"))
             ctx.diff_lines("c17", os.path.join(ctx.work, "ops.txt"), os.path.join(ctx.work, "impl.txt"), model)
     return ctx.finish(rule="F ops: generated IDL programs parsed by the real parser (plus hand-built ASTs outside the parser's range), whole dumped file compared byte for byte; "
+                           "T ops: include graph of the dumped ASTs vs the set of files written by `trimmer -r` (fixed shapes with a shared include before a new one, random include DAGs with sub-directories, with and without anything to trim) against the traversal model; "
                            "R/N/V/P/A ops: literal, number, constant-value and annotation-list texts read by the real parser vs the reader model "
                            "(V in source layout and, where the round trip holds, in the dumper's own layout); "
                            "non-trivial: F always, R/N/V/P when the text is accepted, A with >= 2 pairs; distinct by sha256 of the op line")
